@@ -146,6 +146,15 @@ pub fn judge(_cfg: &Config, case: &Case, l: &mut Local) {
                         }
                     } else if !opts.contains(&letter.as_str()) {
                         v(l, name, "undocumented-letter-accepted", &want, format!("{name}: accepts option letter {letter:?}, which it does not document"), case);
+                    } else if let Ok(Ok(Value::Object(jm))) = guard(|| val.json())
+                        && jm.len() == 1
+                        && let Some(k) = jm.keys().next()
+                        && tok::is_tag(k)
+                        && *k != want
+                    {
+                        // in a message's JSON the variant sits under its key: a key that names another field would
+                        // hand the value to that field when the message is read back
+                        v(l, name, "json-key-names-another-field", &format!("{want}->{k}"), format!("{name}: the JSON of a value parsed as option {letter:?} is keyed {k:?}, not {want:?}"), case);
                     } else if let Ok(Ok(j)) = guard(|| val.json())
                         && let Ok(Ok(back)) = guard(|| (ops.from_json)(&j))
                         && let Ok(s2) = guard(|| back.to_swift())
